@@ -1289,20 +1289,6 @@ def RecsEquiv (a b : Recs) : Prop :=
   a.cols.Perm b.cols ∧ a.rows.length = b.rows.length ∧
     ∀ i k, Recs.lookup a.cols (a.rows.getD i []) k = Recs.lookup b.cols (b.rows.getD i []) k
 
-theorem lookup_map_keys (keys : List String) (F : String → Cell) (k : String) :
-    Recs.lookup keys (keys.map F) k = if k ∈ keys then F k else .none := by
-  unfold Recs.lookup
-  induction keys with
-  | nil => rfl
-  | cons a as ih =>
-    simp only [List.map_cons, List.zip_cons_cons, List.find?_cons, List.mem_cons]
-    by_cases ha : a = k
-    · subst ha; simp
-    · have h1 : (a == k) = false := by simpa using ha
-      have h2 : ¬ k = a := fun h => ha h.symm
-      simp only [h1, h2, false_or]
-      exact ih
-
 theorem concat_keys_perm (keys keys' : List String) (h : keys'.Perm keys) (rs : List Recs) :
     RecsEquiv (Recs.concatWith keys' rs) (Recs.concatWith keys rs) ∧
     Recs.concat rs = Recs.concatWith (dedupKeys (rs.flatMap Recs.cols)) rs := by
@@ -1401,6 +1387,92 @@ theorem spec_reachable_aligned (ops : List Op) :
   simp only [abs, rows, List.mem_map] at hrow
   obtain ⟨i, _, rfl⟩ := hrow
   simp [row, abs, cols]
+
+/-! ### stretch: associativity of concatenation, columns of a masked table -/
+
+/-- **concatenation is associative**: `(d1 + d2) + d3` and `d1 + (d2 + d3)` are both `concat(d1, d2, d3)` —
+same columns in the same order, same records -/
+theorem concat_assoc (a b c : Recs) :
+    Recs.concat [Recs.concat [a, b], c] = Recs.concat [a, b, c] ∧
+    Recs.concat [a, Recs.concat [b, c]] = Recs.concat [a, b, c] := by
+  have hdef : ∀ rs : List Recs, Recs.concat rs = ⟨dedupKeys (rs.flatMap Recs.cols),
+      rs.flatMap fun r => r.rows.map fun row => (dedupKeys (rs.flatMap Recs.cols)).map fun k =>
+        Recs.lookup r.cols row k⟩ := fun _ => rfl
+  have hcols2 : ∀ x y : Recs, (Recs.concat [x, y]).cols = dedupKeys (x.cols ++ y.cols) := by
+    intro x y; simp [Recs.concat]
+  have hrows2 : ∀ x y : Recs, (Recs.concat [x, y]).rows =
+      (x.rows.map fun row => (dedupKeys (x.cols ++ y.cols)).map fun k => Recs.lookup x.cols row k) ++
+      (y.rows.map fun row => (dedupKeys (x.cols ++ y.cols)).map fun k => Recs.lookup y.cols row k) := by
+    intro x y; simp [Recs.concat]
+  constructor
+  · have hK : dedupKeys ([Recs.concat [a, b], c].flatMap Recs.cols) = dedupKeys ([a, b, c].flatMap Recs.cols) := by
+      simp only [List.flatMap_cons, List.flatMap_nil, List.append_nil, hcols2]
+      rw [dedupKeys_dedup_left, List.append_assoc]
+    rw [hdef [Recs.concat [a, b], c], hdef [a, b, c], hK]
+    simp only [List.flatMap_cons, List.flatMap_nil, List.append_nil, List.map_append, List.map_map,
+      Function.comp_def, List.append_assoc, Recs.mk.injEq, true_and, hrows2, hcols2]
+    congr 1
+    · apply List.map_congr_left
+      intro row _
+      exact lookup_through _ _ a.cols row (fun k hk => by rw [mem_dedupKeys]; simp [hk])
+    · congr 1
+      apply List.map_congr_left
+      intro row _
+      exact lookup_through _ _ b.cols row (fun k hk => by rw [mem_dedupKeys]; simp [hk])
+  · have hK : dedupKeys ([a, Recs.concat [b, c]].flatMap Recs.cols) = dedupKeys ([a, b, c].flatMap Recs.cols) := by
+      simp only [List.flatMap_cons, List.flatMap_nil, List.append_nil, hcols2]
+      rw [dedupKeys_dedup_right]
+    rw [hdef [a, Recs.concat [b, c]], hdef [a, b, c], hK]
+    simp only [List.flatMap_cons, List.flatMap_nil, List.append_nil, List.map_append, List.map_map,
+      Function.comp_def, Recs.mk.injEq, true_and, hrows2, hcols2]
+    congr 2
+    · apply List.map_congr_left
+      intro row _
+      exact lookup_through _ _ b.cols row (fun k hk => by rw [mem_dedupKeys]; simp [hk])
+    · apply List.map_congr_left
+      intro row _
+      exact lookup_through _ _ c.cols row (fun k hk => by rw [mem_dedupKeys]; simp [hk])
+
+/-- on dictables (through `abs`): `concat(concat(t1, t2), t3)`, `concat(t1, concat(t2, t3))` and
+`concat(t1, t2, t3)` have the same columns and records -/
+theorem concat_assoc_abs (t1 t2 t3 : Table) (h1 : ∃ n, t1.Rect n) (h2 : ∃ n, t2.Rect n) (h3 : ∃ n, t3.Rect n) :
+    abs (Table.concat [Table.concat [t1, t2], t3]) = abs (Table.concat [t1, t2, t3]) ∧
+    abs (Table.concat [t1, Table.concat [t2, t3]]) = abs (Table.concat [t1, t2, t3]) := by
+  have r12 : ∃ n, (Table.concat [t1, t2]).Rect n := ⟨_, concat_rect (by
+    intro t ht; simp at ht; rcases ht with rfl | rfl <;> assumption)⟩
+  have r23 : ∃ n, (Table.concat [t2, t3]).Rect n := ⟨_, concat_rect (by
+    intro t ht; simp at ht; rcases ht with rfl | rfl <;> assumption)⟩
+  have e12 : abs (Table.concat [t1, t2]) = Recs.concat [abs t1, abs t2] := abs_concat _ (by
+    intro t ht; simp at ht; rcases ht with rfl | rfl <;> assumption)
+  have e23 : abs (Table.concat [t2, t3]) = Recs.concat [abs t2, abs t3] := abs_concat _ (by
+    intro t ht; simp at ht; rcases ht with rfl | rfl <;> assumption)
+  have e123 : abs (Table.concat [t1, t2, t3]) = Recs.concat [abs t1, abs t2, abs t3] := abs_concat _ (by
+    intro t ht; simp at ht; rcases ht with rfl | rfl | rfl <;> assumption)
+  constructor
+  · rw [abs_concat _ (by intro t ht; simp at ht; rcases ht with rfl | rfl <;> assumption), e123]
+    simp only [List.map_cons, List.map_nil, e12]
+    exact (concat_assoc _ _ _).1
+  · rw [abs_concat _ (by intro t ht; simp at ht; rcases ht with rfl | rfl <;> assumption), e123]
+    simp only [List.map_cons, List.map_nil, e23]
+    exact (concat_assoc _ _ _).2
+
+/-- `d[mask][c]` is `d[c]` filtered by the mask (a mask with one flag per row) -/
+theorem mask_col (t t' : Table) (n : Nat) (hr : t.Rect n) (hne : t ≠ []) (m : List Bool) (hm : m.length = n)
+    (h : t.getMask m = .ok t') (k : String) :
+    t'.getColE k = (t.getColE k).map fun c => ((c.zip m).filter (·.2)).map (·.1) := by
+  obtain ⟨t'', h1, h2⟩ := abs_mask t n hr hne m hm
+  rw [h] at h1
+  cases h1
+  obtain ⟨n', hn'⟩ := getMask_rect h
+  rw [abs_getColE hn', abs_getColE hr, h2]
+  unfold Recs.getCol Recs.mask
+  simp only
+  split
+  · simp only [Except.map, List.map_map]
+    congr 1
+    rw [List.zip_map_left, List.filter_map, List.map_map]
+    rfl
+  · rfl
 
 /-! ### closed forms on the reference machine -/
 
